@@ -177,6 +177,25 @@ func init() {
 		}
 	})
 
+	// indenting encoders only, bigger documents, while an indenting stream encoder keeps failing on a broken writer
+	registerGen("c08.poolindent", func(g *Gen) {
+		for i := 0; i < g.N; i++ {
+			g.Emit("pool", itoa(g.R.Intn(1<<30)), itoa(6+g.R.Intn(8)), itoa(80+g.R.Intn(120)), "indent")
+		}
+	})
+
+	// concurrent decodes of keys that match the fields only case-insensitively (both decoders)
+	registerGen("c08.fold", func(g *Gen) {
+		for i := 0; i < g.N; i++ {
+			g.Emit("fold", itoa(g.R.Intn(1<<30)), itoa(2+g.R.Intn(7)), itoa(6+g.R.Intn(11)), itoa(150+g.R.Intn(250)))
+		}
+	})
+	registerGen("c08.foldsmall", func(g *Gen) {
+		for i := 0; i < g.N; i++ {
+			g.Emit("fold", itoa(g.R.Intn(1<<30)), itoa(2+g.R.Intn(3)), itoa(4+g.R.Intn(5)), itoa(30+g.R.Intn(40)))
+		}
+	})
+
 	// C09: one key set inserted in different orders into tables of different initial capacity
 	registerGen("c09.order", func(g *Gen) {
 		for i := 0; i < g.N; i++ {
@@ -184,6 +203,59 @@ func init() {
 			mode := g.R.Intn(7)
 			s, _ := genPMapScript(g, nk, mode, nk, 0, false)
 			g.Emit("pmap", itoa(1<<uint(g.R.Intn(7))), s, "-")
+		}
+	})
+
+	// families shared by both decoder configurations: defined pointer types whose element has a pointer-receiver
+	// Unmarshaler at several nesting depths (decoded after Pretouch with different inline / recursion depths and
+	// PretouchMany orders), and structs with >= 50 fields pretouched alone, together, nested
+	emitDecoderFamilies := func(g *Gen, emit func(pre []string, probes, tag string, chunk int)) {
+		seed := func() string { return itoa(g.R.Intn(1 << 20)) }
+		thorough := g.Tier == "thorough"
+		tagged := []string{"pt:nptr:i8", "pt:nptr:i1", "ptm:nptr:i8r3", "pt:nptrr:i2", "ptm:nptrr:i10r2", "pt:nptr:i4r0"}
+		plain := []string{"none", "use:nref:" + seed(), "pt:nptr", "ptm:nptrr", "use:core:" + seed() + "+use:nref:" + seed()}
+		wide := []string{"none", "ptm:wide", "ptm:wider", "ptm:widemix", "ptm:widemix:i1r3", "pt:wideholder", "pt:wideholder:r3",
+			"pt:wideholder:i1r5", "pt:widea", "use:wide:" + seed(), "pt:core+ptm:wider"}
+		if thorough {
+			for i := 0; i < 12; i++ {
+				tagged = append(tagged, fmt.Sprintf("%s:nptr%s:i%dr%d", []string{"pt", "ptm"}[g.R.Intn(2)], []string{"", "r"}[g.R.Intn(2)], 1+g.R.Intn(9), g.R.Intn(5)))
+				wide = append(wide, fmt.Sprintf("ptm:%s:i%dr%d", []string{"wide", "wider", "widemix", "wideholder"}[g.R.Intn(4)], 1+g.R.Intn(6), g.R.Intn(5)))
+			}
+		}
+		emit(tagged, "nref", "named_ptr_unmarshaler_elem", 12)
+		emit(plain, "nref", "-", 12)
+		emit(wide, "wide", "-", 12)
+	}
+
+	// C09, alternative decoder (worker and children run with SONIC_USE_OPTDEC=1): decoder-relevant families only
+	registerGen("c09.histopt", func(g *Gen) {
+		thorough := g.Tier == "thorough"
+		seed := func() string { return itoa(g.R.Intn(1 << 20)) }
+		emit := func(pre []string, probes, tag string, chunk int) {
+			for len(pre) > 0 {
+				n := chunk
+				if n > len(pre) {
+					n = len(pre)
+				}
+				g.Emit("phist", strings.Join(pre[:n], "|"), probes, tag)
+				pre = pre[n:]
+			}
+		}
+		emitDecoderFamilies(g, emit)
+		pre := []string{"none", "use:core:" + seed(), "pt:core:i1", "pt:core:i10r10", "ptm:core:i1r5", "pt:deep:i1r10", "ptm:deeprev:i2r2",
+			"ptm:rec:r3", "use:core.deep.u+ptm:core:i1"}
+		if thorough {
+			pre = append(pre, "fill:2100:"+seed(), "pt:core", "ptm:core", "pt:rec:i1r4", "pt:deeprev")
+			for i := 0; i < 20; i++ {
+				pre = append(pre, "use:core:"+seed(), fmt.Sprintf("ptm:core:i%dr%d", 1+g.R.Intn(5), g.R.Intn(6)))
+			}
+		}
+		emit(pre, "core", "-", 12)
+		emit([]string{"none", "use:samename:" + seed(), "pt:sameab", "ptm:sameab", "ptm:sameba", "ptm:sameloc", "ptm:samelocr", "ptm:sameall",
+			"ptm:sameall:i1r2", "pt:sameout:i1r5", "ptm:sameout:r3", "use:samename.b.u+ptm:sameba"}, "samename", "same_name_two_pkgs", 12)
+		collide := []string{"collide.x.u", "collide.y.u"}
+		for i, p := range collide {
+			emit([]string{"none", "pt:collide", "ptm:collider", "use:" + collide[1-i], "use:" + strings.TrimSuffix(collide[1-i], ".u")}, p, "-", 12)
 		}
 	})
 
@@ -231,10 +303,15 @@ func init() {
 			pre = append(pre, fill+"+ptm:sameab")
 		}
 		emit(pre, "samename", "same_name_two_pkgs", 12)
+		// ---- defined pointer types with Unmarshaler elements, wide structs
+		emitDecoderFamilies(g, emit)
 		// ---- two distinct reflect.StructOf types with the same runtime hash and layout: every probe alone
 		// after the other type was used / pretouched first
 		collide := []string{"collide.x", "collide.y", "collide.xptr", "collide.yptr", "collide.x.u", "collide.y.u"}
-		for _, p := range collide {
+		for ci, p := range collide {
+			if !thorough && ci%2 == 1 {
+				continue
+			}
 			fam := []string{"none", "pt:collide", "ptm:collider"}
 			for _, q := range collide {
 				if q != p && (thorough || g.R.Intn(2) == 0 || q[:9] != p[:9]) {
@@ -251,7 +328,7 @@ func init() {
 			}
 		}
 		for _, p := range names {
-			if !thorough && g.R.Intn(3) != 0 && p != "ptrrecv.K0ptr" {
+			if !thorough && g.R.Intn(5) != 0 && p != "ptrrecv.K0ptr" {
 				continue
 			}
 			plain := []string{"none", "use:core:" + seed()}
